@@ -441,12 +441,17 @@ fn format_directive<'entry>(
         // - "." also returns "."
         // - ".." returns "." (???)
         // These are all (thankfully) documented on the find(1) man page.
-        FormatDirective::Dirname => match file_info.path().parent() {
-            None => "".into(),
-            Some(p) if p == Path::new("/") => "".into(),
-            Some(p) if p == Path::new("") => ".".into(),
-            Some(parent) => parent.to_string_lossy(),
-        },
+        // (`Path::parent` would drop the "." of "dir/." and "dir/./file", so this works on
+        // the text of the path.)
+        FormatDirective::Dirname => {
+            let path = file_info.path().to_string_lossy();
+            let trimmed = path.trim_end_matches('/');
+            match trimmed.rfind('/') {
+                None if trimmed.is_empty() => "".into(),
+                None => ".".into(),
+                Some(slash) => trimmed[..slash].trim_end_matches('/').to_owned().into(),
+            }
+        }
 
         #[cfg(not(unix))]
         FormatDirective::Filesystem => "".into(),
